@@ -5,6 +5,7 @@ go 1.19
 require github.com/tonkeeper/tongo v0.0.0
 
 require (
+	github.com/alecthomas/participle/v2 v2.0.0-beta.5 // indirect
 	github.com/oasisprotocol/curve25519-voi v0.0.0-20220328075252-7dd334e3daae // indirect
 	github.com/snksoft/crc v1.1.0 // indirect
 	golang.org/x/crypto v0.17.0 // indirect
